@@ -87,6 +87,33 @@ example : Sema.Gen.FactsC10.phases =
 /-- … and `removeInbound` that of `removeInboundEdges` -/
 example : Sema.Gen.FactsC10.removeInboundPhases = ["edgeScan", "pruneDeleteNeighbour", "rescueOntoEntry"] := by decide
 
+
+/-! T2 for the change stream: the syntactic shape of the code `pstep` / `changeOf` model, regenerated from
+the working tree on every check -/
+
+/-- `pstep`: an insert is never withheld from the indices; an update / a delete only when the point does not
+exist (`docOf S i = none`) … -/
+example : Sema.Gen.FactsC10.insertSkips = [] ∧
+    Sema.Gen.FactsC10.updateSkips = ["err == pointstore.ErrPointDoesNotExist"] ∧
+    Sema.Gen.FactsC10.deleteSkips = ["err == pointstore.ErrPointDoesNotExist"] := by decide
+
+/-- … and the change carries the node id with (insert) the new document, (update) the stored and the merged
+document, (delete) the stored document: the `prev` / `cur` arguments of `changeOf` in `pstep` -/
+example : Sema.Gen.FactsC10.insertChange = ["NodeId", "NewData"] ∧
+    Sema.Gen.FactsC10.updateChange = ["NodeId", "PreviousData", "NewData"] ∧
+    Sema.Gen.FactsC10.deleteChange = ["NodeId", "PreviousData"] := by decide
+
+/-- `changeOf`: the dispatcher asks `getOperation` for EVERY key of the index schema with both documents, and
+leaves an index alone only on `opSkip` … -/
+example : Sema.Gen.FactsC10.dispatchRange = "propName of im.indexSchema" ∧
+    Sema.Gen.FactsC10.dispatchOperationArgs = ["dec", "propName", "change.PreviousData", "change.NewData"] ∧
+    Sema.Gen.FactsC10.dispatchSkips = ["op == opSkip"] := by decide
+
+/-- … which is the case "absent before and after" -/
+example : Sema.Gen.FactsC10.operationCases =
+    ["prevProp == nil && currentProp != nil => opInsert", "prevProp != nil && currentProp != nil => opUpdate",
+     "prevProp != nil && currentProp == nil => opDelete", "prevProp == nil && currentProp == nil => opSkip"] := by decide
+
 /-! ### non-vacuity and the defect of the unrepaired bookkeeping -/
 
 /-- distances of the examples: |a - b| on the ids themselves, alpha = 2 -/
@@ -125,5 +152,147 @@ theorem C10_defect13_witness :
           !wfB exCfg.degreeBound g' [3, 4, 5, 6]) &&
      okAnd (applyV true exCfg exDists [] exGraph [⟨2, true⟩, ⟨2, false⟩])
        (fun g' => !g'.keys.contains 2 && wfB exCfg.degreeBound g' [3, 4, 5, 6])) = true := by decide
+
+/-! ### the point store and the index change stream — index schemas over nested property paths
+
+The theorems above take the change stream as given and define the live points through it (`liveAfter`).
+The ones below close that gap for the shard (`pstep` / `pbatch`: the transform functions of `InsertPoints`,
+`UpdatePoints`, `DeletePoints` followed by `getOperation` / `preProcessVamana` of the dispatcher): `L` is
+READ OFF THE POINTS BUCKET (`fieldIds vp S`: the points whose document has a non-nil value at the schema
+path `vp`), for every schema path — top-level or nested at any depth — and every batch: documents of any
+shape, updates that replace or delete the top-level object above the leaf, that carry a sibling only, an
+empty object, a nil leaf, points named several times, unknown points. -/
+
+/-- which changes reach the index at all: a batch element is withheld from the vector index iff its point
+neither had nor has the field (or does not exist); otherwise the index is told about exactly this point,
+with the vector of the NEW document (none iff the new document lacks the field); no other document moves -/
+theorem C10_stream_complete (vp : Path) (S S' : PStore) (o : POp) (c : Option VChange)
+    (h : pstep vp S o = .ok (S', c)) :
+    (c = none ↔ (fld vp S o.id = false ∧ fld vp S' o.id = false)) ∧
+    (∀ c', c = some c' → c'.id = o.id ∧ c'.vec = docVec vp S' o.id ∧ c'.vec.isSome = fld vp S' o.id) ∧
+    (∀ j, j ≠ o.id → docOf S' j = docOf S j) := by
+  obtain ⟨hoth, hc⟩ := pstep_spec vp S S' o c h
+  refine ⟨?_, ?_, hoth⟩
+  · rcases hc with ⟨rfl, h1, h2⟩ | ⟨v, rfl, _, h3, _⟩
+    · simp [h1, h2]
+    · constructor
+      · intro e; cases e
+      · rintro ⟨h1, h2⟩; rcases h3 with h3 | h3 <;> simp_all
+  · intro c' hc'
+    rcases hc with ⟨rfl, _, _⟩ | ⟨v, rfl, hv, _, hvec⟩
+    · cases hc'
+    · cases hc'
+      refine ⟨rfl, ?_, hv⟩
+      cases v with
+      | none =>
+        cases hd : docVec vp S' o.id with
+        | none => rfl
+        | some t => exact absurd ((hvec t).mpr hd) (by simp)
+      | some t => exact ((hvec t).mp rfl).symm
+
+/-- the live set the graph theorems speak about IS the set of points carrying the field: running the
+specification's `liveAfter` along the stream the shard emits gives exactly (as a duplicate-free list) the
+points whose document has the field after the batch -/
+theorem C10_stream_live (vp : Path) (ops : List POp) (S S' : PStore) (cs : List VChange)
+    (hS : S.keys.Nodup) (h : pbatch vp ops S = .ok (S', cs)) :
+    S'.keys.Nodup ∧ (liveAfter (fieldIds vp S) (cs.map VChange.toChange)).Nodup ∧
+    ∀ i, i ∈ liveAfter (fieldIds vp S) (cs.map VChange.toChange) ↔ i ∈ fieldIds vp S' := by
+  have hk := pbatch_keys vp ops S S' cs hS h
+  have hA := pbatch_agree vp ops S S' cs _ (agree_fieldIds vp S hS) h
+  exact ⟨hk, hA.1, fun i => by rw [hA.2 i, mem_fieldIds vp S' hk i]⟩
+
+/-- the index holds, for every point, the vector its document carries at the schema path (and none for the
+others), provided it did before the batch: `vecsAfter` = `vecStore.Set` / `Delete` along the stream, the
+last change of a point winning (the bookkeeping `C10_step` is about).  This is the "point's stored vector"
+the distances of C03 refer to. -/
+theorem C10_stream_vectors (vp : Path) (ops : List POp) (S S' : PStore) (cs : List VChange) (T : Id → Option Nat)
+    (hT : ∀ i, T i = docVec vp S i) (h : pbatch vp ops S = .ok (S', cs)) :
+    ∀ i, vecsAfter T cs i = docVec vp S' i :=
+  pbatch_vecs vp ops S S' cs T hT h
+
+section
+variable {D : Type} [LT D] [DecidableRel (α := D) (· < ·)]
+
+/-- `C10_step` at the level of the shard: a write batch (any mix, any schema path) accepted by the points
+bucket and by the index takes a graph that is well-formed FOR THE POINTS BUCKET to one that is well-formed
+for the new points bucket: exactly one node and one vector per live point whose document has the field. -/
+theorem C10_shard_step (cfg : Cfg) (hR : 1 ≤ cfg.degreeBound) (ds : Dists D) (ord : List Id) (g g' : Graph)
+    (vp : Path) (ops : List POp) (S S' : PStore) (cs : List VChange) (hS : S.keys.Nodup)
+    (hWF : WF cfg.degreeBound g (fieldIds vp S)) (hb : pbatch vp ops S = .ok (S', cs))
+    (h : apply cfg ds ord g (cs.map VChange.toChange) = .ok g') :
+    WF cfg.degreeBound g' (fieldIds vp S') :=
+  shard_step_aux cfg hR ds ord g g' vp ops S S' cs hS hWF hb h
+
+/-- every history of write requests on the shard (accepted or rejected, any schema path) from a state in
+which the graph is well-formed for the points bucket ends in such a state -/
+theorem C10_shard_history_from (cfg : Cfg) (hR : 1 ≤ cfg.degreeBound) (vp : Path) (steps : List (SStep D))
+    (S : PStore) (g : Graph) (hS : S.keys.Nodup) (hWF : WF cfg.degreeBound g (fieldIds vp S)) :
+    (shardRun cfg vp steps (S, g)).1.keys.Nodup ∧
+    WF cfg.degreeBound (shardRun cfg vp steps (S, g)).2 (fieldIds vp (shardRun cfg vp steps (S, g)).1) :=
+  shard_history_from_aux cfg hR vp steps S g hS hWF
+
+/-- … in particular every history from the empty shard: after every write the graph has exactly one node
+and one vector per live point whose DOCUMENT has the field at the schema path, plus the entry node -/
+theorem C10_shard_history (cfg : Cfg) (hR : 1 ≤ cfg.degreeBound) (vp : Path) (steps : List (SStep D)) :
+    (shardRun cfg vp steps ([], Graph.init)).1.keys.Nodup ∧
+    WF cfg.degreeBound (shardRun cfg vp steps ([], Graph.init)).2
+      (fieldIds vp (shardRun cfg vp steps ([], Graph.init)).1) :=
+  shard_history_aux cfg hR vp steps
+
+end
+
+/-! non-vacuity: the schema path `n.v` (keys as bytes: n = 110, v = 118, s = 115, t = 116, g = 103) -/
+
+def exVp : Path := [110, 118]
+
+/-- points 2..6 of `exGraph`, each `{n: {v: <vector i>, s: …}, t: …}`; point 7 has no `n` at all -/
+def exStore : PStore :=
+  [2, 3, 4, 5, 6].map (fun i => (i, [([110, 118], Leaf.vec i), ([110, 115], Leaf.other), ([116], Leaf.other)])) ++
+    [(7, [([116], Leaf.other)])]
+
+/-- an update batch none of whose top-level keys is a schema key: a new parent object for 2, a sibling only
+for 3 (vector gone), `n: "_delete"` for 4, an empty `n` for 5, an unrelated key for 6, a parent with a vector
+for 7 (field added), 3 again with a vector, an unknown point -/
+def exOps : List POp :=
+  [.upd 2 [([110, 118], Leaf.vec 20)], .upd 3 [([110, 115], Leaf.other)], .upd 4 [([110], Leaf.del)],
+   .upd 5 [([110], Leaf.obj)], .upd 6 [([116], Leaf.other)], .upd 7 [([110, 118], Leaf.vec 70), ([103], Leaf.other)],
+   .upd 3 [([110, 118], Leaf.vec 30)], .upd 9 [([110, 118], Leaf.vec 90)]]
+
+/-- the hypotheses of `C10_shard_step` / `C10_stream_live` hold on it, the stream is what one expects (the
+unrelated update of 6 re-submits its vector, the unknown point is skipped), and the graph follows -/
+example :
+    (nodupB (exStore.map (·.1)) && wfB exCfg.degreeBound exGraph (fieldIds exVp exStore) &&
+     (match pbatch exVp exOps exStore with
+      | .ok (S', cs) =>
+        cs == [⟨2, some 20⟩, ⟨3, none⟩, ⟨4, none⟩, ⟨5, none⟩, ⟨6, some 6⟩, ⟨7, some 70⟩, ⟨3, some 30⟩] &&
+        fieldIds exVp S' == [3, 7, 6, 2] &&
+        okAnd (apply exCfg exDists [] exGraph (cs.map VChange.toChange)) (fun g' => wfB exCfg.degreeBound g' (fieldIds exVp S'))
+      | .error _ => false)) = true := by decide
+
+/-- … and the hypothesis "the stream is the one `pbatch` emits" cannot be dropped: if the change of an update
+that names no schema key at top level (`n: {s: …}` on point 3 — the vector is gone from the document) is
+withheld from the index, the graph is left with a node for a point without the field. -/
+theorem C10_withheld_change_witness :
+    (match pbatch exVp [.upd 3 [([110, 115], Leaf.other)]] exStore with
+     | .ok (S', cs) =>
+       cs == [⟨3, none⟩] && fieldIds exVp S' == [2, 4, 5, 6] &&
+       wfB exCfg.degreeBound exGraph (fieldIds exVp exStore) &&
+       okAnd (apply exCfg exDists [] exGraph []) (fun g' => g'.keys.contains 3 && !wfB exCfg.degreeBound g' (fieldIds exVp S')) &&
+       okAnd (apply exCfg exDists [] exGraph (cs.map VChange.toChange)) (fun g' => wfB exCfg.degreeBound g' (fieldIds exVp S'))
+     | .error _ => false) = true := by decide
+
+/-- a history on the shard with the nested schema path: three inserts (one without the field), a request that
+is rejected (a scalar where the path expects an object: `dec.Query` fails; nothing changes), an update that
+replaces the parent of 3 by a sibling only and gives 4 the field — the final graph has exactly the nodes of
+the points whose document has the field -/
+example :
+    (let nv : Nat → Doc := fun t => [([110, 118], Leaf.vec t), ([116], Leaf.other)]
+     let s := shardRun exCfg exVp
+       [⟨exDists, [], [.ins 2 (nv 2), .ins 3 (nv 3), .ins 4 [([116], Leaf.other)]]⟩,
+        ⟨exDists, [], [.ins 5 [([110], Leaf.other)]]⟩,
+        ⟨exDists, [], [.upd 3 [([110, 115], Leaf.other)], .upd 4 [([110, 118], Leaf.vec 40), ([110, 115], Leaf.other)]]⟩]
+       ([], Graph.init)
+     s.1.map (·.1) == [4, 3, 2] && fieldIds exVp s.1 == [4, 2] && s.2.keys.length == 3 &&
+       wfB exCfg.degreeBound s.2 (fieldIds exVp s.1)) = true := by decide
 
 end Sema.C10
